@@ -91,7 +91,7 @@ class Exec:
         s.solver = z3.Solver(); s.solver.set('timeout', min(feas_timeout_ms, 5000))
         s.nq = 0; s.tq = 0.0; s.fresh = 0; s.axioms = []; s._lay = {}; s._ipdom = {}
         s.npaths = 0; s.nmerged = 0; s.ninstr = 0; s.fork_symbolic_memcpy = False
-        s.slicing = True; s._vars = {}; s._keep = []; s.real_only = None
+        s.slicing = True; s._vars = {}; s._keep = []; s.real_only = None; s.concretise_geps = None
         s.is_shared = None     # callable(st, ptr) -> bool: accesses to shared cells are scheduling points (llconc)
         s.called = set()
     # ---------- layout
@@ -845,7 +845,14 @@ class Exec:
             if s.is_shared is not None and s.yield_here(st, fr, p): return [Result('yield', st, info=ins.line)]
             if not s.store(st, p, a['ty'], v): return [Result('memfault', st, info=ins.line)]
         elif op == 'getelementptr':
-            base = C(None, a['ptr']); fr.regs[ins.dst] = s.gep(st, a['base'], base, [(t, C(t, v)) for t, v in a['idx']])
+            base = C(None, a['ptr']); p = s.gep(st, a['base'], base, [(t, C(t, v)) for t, v in a['idx']])
+            if s.concretise_geps and isinstance(p, Ptr) and not isinstance(p.off, int) and (s.concretise_geps is True or st.objs[p.obj].name in s.concretise_geps):
+                # pointer arithmetic with a symbolic index into the listed objects: one path per feasible offset (small, bounded ranges only)
+                outs = []
+                for vals, cond in s.concretise(st, [p.off]):
+                    st2 = st.clone(); st2.pc.append(cond); st2.stack[-1].regs[ins.dst] = Ptr(p.obj, vals[0].as_signed_long()); outs.append(st2)
+                return outs
+            fr.regs[ins.dst] = p
         elif op == 'phi':
             raise HarnessError('phi reached by fallthrough')
         elif op == 'br':
